@@ -120,13 +120,23 @@ func runC05(r *Run) {
 			if m == nil || len(m.Blocks) == 0 {
 				continue
 			}
+			if m.Object() != nil && !m.Object().Exported() {
+				continue // a helper of the exported methods (`acquireQueryBinder`): judged where it is used
+			}
 			gets := callsMatching(m, false, func(s string) bool { return strings.Contains(s, "binder.GetFromThePool") })
 			if len(gets) == 0 {
 				continue
 			}
 			n++
 			ok := false
-			for _, a := range anonFuncsDeep(m) {
+			// the releasing function: a deferred closure, or a named function that is deferred (`defer releaseQueryBinder(bind)`)
+			releasers := anonFuncsDeep(m)
+			for _, in := range instrsWhereOne(m, func(in ssa.Instruction) bool { _, ok := in.(*ssa.Defer); return ok }) {
+				if g := in.(*ssa.Defer).Call.StaticCallee(); g != nil && len(g.Blocks) > 0 && g.Pkg == m.Pkg {
+					releasers = append(releasers, g)
+				}
+			}
+			for _, a := range releasers {
 				rs := callsMatching(a, false, nameHasSuffix("Binding).Reset"))
 				ps := callsMatching(a, false, func(s string) bool { return strings.Contains(s, "binder.PutToThePool") })
 				if len(rs) == 1 && len(ps) == 1 && precedes(rs[0].Instr, ps[0].Instr) {
@@ -135,8 +145,21 @@ func runC05(r *Run) {
 			}
 			// the closure must be deferred before any return
 			deferred := false
-			for _, in := range instrsWhere(m, func(in ssa.Instruction) bool { _, ok := in.(*ssa.Defer); return ok }) {
-				_, hit := reach(pointAfter(gets[0].Instr), isReturn, nil, func(x ssa.Instruction) bool { return x == in })
+			// (the binding may be taken inside a helper: then the paths start behind the call of that helper)
+			start := ssa.Instruction(gets[0].Instr)
+			if start.Parent() != m {
+				for _, c := range callsIn(m, false) {
+					if c.Instr.Parent() == m && c.Common.StaticCallee() == start.Parent() {
+						start = c.Instr
+					}
+				}
+			}
+			ownReturn := func(x ssa.Instruction) bool { _, isRet := x.(*ssa.Return); return isRet && x.Parent() == m }
+			for _, in := range instrsWhereOne(m, func(in ssa.Instruction) bool { _, ok := in.(*ssa.Defer); return ok }) {
+				if start.Parent() != m {
+					continue
+				}
+				_, hit := reach(pointAfter(start), ownReturn, nil, func(x ssa.Instruction) bool { return x == in })
 				if hit == nil {
 					deferred = true
 				}
